@@ -30,6 +30,7 @@ pub struct Cfg {
     pub link: bool,
     pub bg: bool,
     pub utc: bool,
+    pub fw: bool,
     pub via: String, // logger | flw
     pub subdir: String,
     pub maxlvl: String, // max level for the file writer (flw) - "" = default
@@ -92,6 +93,7 @@ impl Cfg {
             link: gb(v, "link", false),
             bg: gb(v, "bg", false),
             utc: gb(v, "utc", false),
+            fw: gb(v, "fw", false),
             via: gs(v, "via", "logger"),
             subdir: gs(v, "subdir", "logs"),
             maxlvl: gs(v, "maxlvl", ""),
